@@ -259,6 +259,9 @@ func run(p *propCfg, tier string, seed int64, replay string, determinism bool, s
 	replayDir := filepath.Join(verifDir, "replays", p.ID)
 	os.MkdirAll(replayDir, 0o755)
 	seed0 := uint64(seed) * 1_000_000
+	if p.Enumerate {
+		workers = p.EnumWorkers
+	}
 	perWorker := (runs + workers - 1) / workers
 	var mu sync.Mutex
 	var outs []batchOut
@@ -283,8 +286,13 @@ func run(p *propCfg, tier string, seed int64, replay string, determinism bool, s
 				if left < 1 {
 					left = 1
 				}
+				mode := "batch"
+				if p.Enumerate {
+					mode = "enumerate"
+				}
 				env := []string{
-					"SIM_MODE=batch", "SIM_PROP=" + p.ID,
+					"SIM_MODE=" + mode, "SIM_PROP=" + p.ID,
+					fmt.Sprintf("SIM_EW=%d", workers), fmt.Sprintf("SIM_EI=%d", w),
 					fmt.Sprintf("SIM_SEED0=%d", seed0+uint64(w)+uint64(k)*uint64(workers)),
 					fmt.Sprintf("SIM_STRIDE=%d", workers),
 					fmt.Sprintf("SIM_COUNT=%d", per),
@@ -576,6 +584,13 @@ func report(p *propCfg, tier string, seed int64, outs []batchOut, crashes []viol
 		"build_s":                  buildS,
 		"seeds":                    fmt.Sprintf("%d + i, i in [0,%d)", uint64(seed)*1_000_000, total.Runs),
 		"known_findings_reproduced": len(knownHit),
+	}
+	if p.Enumerate {
+		cov["exhaustive"] = total.Stats["enumeration_complete"] == p.EnumWorkers
+		cov["enumeration_workers_complete"] = total.Stats["enumeration_complete"]
+		if total.Stats["enumeration_complete"] != p.EnumWorkers && len(fresh) == 0 {
+			trouble = append(trouble, fmt.Sprintf("enumeration incomplete: %d of %d shares finished", total.Stats["enumeration_complete"], p.EnumWorkers))
+		}
 	}
 	ev := map[string]any{
 		"property_id": p.ID, "tier": tier, "seed": seed, "level": p.Level,
